@@ -7,7 +7,7 @@ PID = "C06"
 MANIFEST = {
     "text": "The model carries, as explicit panic outcomes, the panic sites transcribed from the Rust code (slice index, unwrap, as_conscell, unchecked arithmetic), and the theorems show that no input reaches them. The main theorem is evaluator-wide: for EVERY expression, environment, module, depth, amount of fuel and every state whose current module exists, neither the evaluator loop nor the expander nor eval / macroexpand / call-native-function / load-all ends in a panic site (mutual induction over the six functions; the only residue, named in the statement, is where the model itself gives up: file-system access and native-function values that name no table entry, which the interpreter cannot construct); it rests on: every primitive of the GENERATED table on every argument list that passes its generated signature; no module ever disappears and the current module always exists (so load-all's unwrap cannot fail); what read returns is a property list. Site by site: the reader and the native read for every text, source and start position (negative, zero, huge); the arithmetic natives as generated from the source on every pair of i64, in either build profile; evaluation beyond the depth limit is a signal for every expression; variable lookup is total on any value used as environment, exact on association lists, and parameter binding and trap handling only ever extend an association list by (symbol . value) pairs (all parameter lists, argument lists, rest parameters); send is total on every list. Tied to the code by the shared differential checks of the evaluator and reader models, and decided on the binary (debug and release profile, in-process panic capture and process exit status) by a type-shaped enumeration: every primitive applied to every combination of argument shapes (all types, boundary integers, improper, odd, long, deep and shared structures, hand-made functions, traps and environments) at every arity from 0 to one more than declared, plus malformed texts for read and deep/long data through print, =, eval, macroexpand and the command-line front end.",
     "note": "Partial: exhaustion of the native stack by uncounted recursion and panics inside the Rust standard library are runtime behaviour the model cannot exhibit; that part is decided by the enumeration on the binary (testing, not proof). Trusted: Coq kernel; transcription of panic sites (hand-written, bound by the correspondence: the model panics exactly where the binary does on the enumerated cases).",
-    "technique": "Coq theorems about the transcribed panic sites (reachability guards, refutation witnesses) + exhaustive type-shaped enumeration of primitives x argument shapes on the binary in both build profiles + model/binary agreement on panics",
+    "technique": "Coq proof by mutual induction over the six evaluator functions that no evaluation reaches a transcribed panic site + per-primitive totality over the generated native table + module-persistence invariant + exhaustive type-shaped enumeration of primitives x argument shapes on the binary in both build profiles + model/binary agreement on the enumerated calls",
 }
 TARGETS = ["Properties/C06.v", "Eval/PreludeState.v"]
 IMPORTS = ["Data.ReaderProofs", "Data.ArithProofs", "Eval.Eval", "Eval.EvalRules", "Eval.SemProofs", "Eval.TotalityProofs", "Eval.NativesTotal", "Eval.ModulesPersist", "Eval.EvalTotal", "Properties.C06"]
